@@ -8,67 +8,67 @@ V = os.path.dirname(os.path.dirname(os.path.abspath(__file__)))
 CLAIMED = {
  "C01": ("differential property testing against a prefix-popcount oracle over generated bit vectors x a menu of ~75 rank/select stacks",
          "Generated-input search over bit-vector descriptions (length classes around 64/512/2048-bit boundaries, densities 0.001..0.99, saturated/empty blocks, sparse gap lists, construction routes that leave stale bits: pop, shrinking resize, dirty raw parts) and a menu of rank-capable stacks (Rank9, the five RankSmall, boxed, under SelectAdapt/Const, Select9, SelectSmall, zero selectors, map re-wrappings); rank/rank_zero compared with prefix popcounts at every position up to len+2 (or boundary/sampled positions) and far beyond len; num_ones/count_ones/len/Index checked. Exploration: absence of violations only on what was generated.",
-         "Trusts the harness oracle (prefix popcounts of the logical bits) and decoders. Vectors above 2^32 bits are only covered by the dedicated 'huge' cases of the thorough tier."),
+         "Trusts the harness oracle (prefix popcounts of the logical bits) and decoders. Vectors above 2^32, 2^33 and 2^34 bits (dense, sparse, all ones, three upper blocks) are enumerated cases of both tiers."),
  "C02": ("differential property testing against the positions of ones/zeros over generated bit vectors x selection structures x parameters",
          "Generated-input search over bit vectors (including prescribed gap lists around 2^16, ragged tails, stale bits) x selection stacks (Select9, SelectAdapt new/with_span/with_inv, 12 const (K,M) pairs, SelectSmall over each RankSmall, the zero twins, nestings) x generated parameters; select/select_zero compared with the oracle for every rank (sampled above 4096) and None beyond the count. Exploration level.",
-         "Trusts the oracle (positions of ones / binary search on prefix counts for zeros). 64-bit spans (gaps > 2^32) need vectors above 2^32 bits: thorough-tier 'huge' cases only."),
+         "Trusts the oracle (positions of ones / binary search on prefix counts for zeros). 64-bit spans, mixed 16/32/64-bit span classes and irregular dense vectors with long second/third upper blocks are enumerated cases above 2^32 bits in both tiers."),
  "C03": ("round-trip property testing: generated monotone sequences x builders x 9 selection back-ends, illegal pushes must be rejected",
-         "Generated-input search over monotone sequences (duplicate runs crossing words, powers of two, huge gaps, u up to usize::MAX, (n,u) near the power-of-two split) built by push / extend / From<slice> / concurrent set in random order, then mapped onto 9 selection back-ends; len, get, iter, iter_from/into_iter_from at all starts with exact length hints compared with the input; out-of-order, too large and supernumerary pushes must panic and leave the builder usable. Exploration level.",
-         "Trusts the input vector as oracle. Sequences are bounded (<= 10^5 elements in the thorough tier)."),
+         "Generated-input search over monotone sequences (duplicate runs crossing words, powers of two, huge gaps, u up to usize::MAX, (n,u) near the power-of-two split) built by push / extend / From<slice> / concurrent set in random order, then mapped onto 9 selection back-ends; len, get, iter, iter_from/into_iter_from at all starts with exact length hints compared with the input; out-of-order, too large and supernumerary pushes must panic and leave the builder usable; plus enumerated long skewed sequences (70000..1.7 million values) whose selector inventory entries span exactly 2^k-1, 2^k, 2^k+1 bits; iterators are also driven through nth/skip/step_by/count/last scripts against the model iterator. Exploration level.",
+         "Trusts the input vector as oracle. Random sequences are bounded (<= 10^5 elements in the thorough tier); the enumerated skewed sequences reach 1.7 million."),
  "C04": ("property testing against an order-theoretic oracle (partition_point) over generated sequences and query lists covering the whole usize range",
-         "Generated-input search over sequences as in C03 and, per sequence, ~100-250 queries (elements, neighbours, midpoints, bucket edges, u-1, u, u+1, 2u, 2^63, usize::MAX, random) on 5 select+select_zero back-ends; index_of/contains/succ/succ_strict/pred/pred_strict compared with partition_point on the sorted input, accepting any index that holds the returned value. Exploration level.",
+         "Generated-input search over sequences as in C03 and, per sequence, ~100-250 queries (elements, neighbours, midpoints, bucket edges, u-1, u, u+1, 2u, 2^63, usize::MAX, random) on 5 select+select_zero back-ends; index_of/contains/succ/succ_strict/pred/pred_strict compared with partition_point on the sorted input, accepting any index that holds the returned value; every query also runs through the &T/&&T forwarding impls and on the enumerated long skewed sequences of C03. Exploration level.",
          "Trusts the oracle; with duplicates any index holding the value is accepted, as the property states."),
  "C05": ("model-based property testing: generated operation histories per word type and bit width against a Vec of values, full-state comparison after every op",
-         "Generated-input search: for each of the six word types, histories of <=60 operations (construction routes incl. macros and from_slice, push/pop/set/get/resize/clear/extend, positioned/unchecked/reverse iteration, equality, from_slice into every word type, boxed and atomic conversions with single-threaded atomic scripts) at widths 0..=BITS with all-ones/top-bit values; every observation is compared with a Vec model after every step; non-fitting values and out-of-range indices must panic and leave the contents unchanged. Exploration level.",
+         "Generated-input search: for each of the six word types, histories of <=60 operations (construction routes incl. macros and from_slice, push/pop/set/get/resize/clear/extend, positioned/unchecked/reverse iteration, equality, from_slice into every word type, boxed and atomic conversions with single-threaded atomic scripts) at widths 0..=BITS with all-ones/top-bit values; every observation is compared with a Vec model after every step; non-fitting values and out-of-range indices must panic and leave the contents unchanged; histories include garbage written through as_mut_slice() beyond the contents, extends from iterators with exact/(0,Some(n))/(0,Some(usize::MAX))/(0,None) size hints, extends left by a panic, equality against borrowed views of the vector's own words, and Iterator-protocol scripts (nth/skip/step_by/...). Exploration level.",
          "Trusts the Vec model and the decoders. set()/set_atomic() with width 0 is never generated (documented as undefined)."),
  "C06": ("model-based property testing: generated operation histories against a Vec<bool> model, full-state comparison after every op, byte-level shrinking",
-         "Generated-input search: hundreds of thousands (quick) to millions (thorough) of operation histories over all construction routes, the growable/boxed/atomic forms and their conversions, with out-of-range accesses that must panic; every observation is compared with a Vec<bool> model after every step. Exploration, not proof: it shows the absence of violations only on the histories generated.",
+         "Generated-input search: hundreds of thousands (quick) to millions (thorough) of operation histories over all construction routes, the growable/boxed/atomic forms and their conversions, with out-of-range accesses that must panic; every observation is compared with a Vec<bool> model after every step; the same additions as C05 (scribbled storage, size-hint variety, alias views, Iterator-protocol scripts) plus enumerated vectors above 2^32 bits. Exploration, not proof: it shows the absence of violations only on the histories generated.",
          "Trusts the harness model (Vec<bool>) and the decoders; worker processes isolate aborting cases; the checked profile (debug assertions => std ub_checks) turns out-of-bounds get_unchecked into an abort that is reported as a violation."),
 }
 
 
 CLAIMED.update({
  "C07": ("property testing of builder configurations: generated (type-table row, key set, values, configuration[, second configuration]) plus enumeration of every n<=130 on every row; oracle = the input pairs; deterministic attempt bound instead of a clock",
-         "Generated-input search over a 20-row table of concrete builder types (5 key types x 5 value words x 2 backends x 64/128-bit signatures x the 5 shard/edge logics), every n in 0..=130 per row, thousands of random configurations (offline, low_mem, threads, eps, buckets, seed, expected_num_keys absent/exact/inexact/in another sharding regime, check_dups) with n<=3000, and sizes around the 100k/200k/400k/800k/1.7M regime switches; every supplied pair is verified through get (and get_unaligned where admissible), and a second configuration must give a function that also verifies. Exploration level.",
-         "Thread schedules of the parallel solver are not controlled (varied only through the thread count); termination is decided by a deterministic bound on source rewinds (generous where attempts are cheap), a wall-clock watchdog only yields 'inconclusive'."),
+         "Generated-input search over a 20-row table of concrete builder types (5 key types x 5 value words x 2 backends x 64/128-bit signatures x the 5 shard/edge logics), every n in 0..=130 per row, thousands of random configurations (offline, low_mem, threads, eps, buckets, seed, expected_num_keys absent/exact/inexact/in another sharding regime, check_dups) with n<=3000, sizes around the 100k/200k/400k/800k/1.7M regime switches, and an enumerated segment of builds in the pure peeling regimes (800001 keys on the sharded logics, 100001.. on FuseLge3NoShards; thorough up to 2.05*10^7 keys) with low- and high-memory peelers; every supplied pair is verified through get (and get_unaligned where admissible), and a second configuration must give a function that also verifies. Exploration level.",
+         "Thread schedules of the parallel solver are not controlled (varied only through the thread count); termination is decided by a deterministic bound on source rewinds (generous where attempts are cheap), a wall-clock watchdog only yields 'inconclusive'; a worker whose threads are all blocked without consuming CPU for 12 s is a violation of class deadlock (state criterion, see DESIGN.md section 9)."),
  "C08": ("property testing of filter builds with a statistical oracle for the false-positive rate (7-sigma binomial band, two-sided when the expectation is >= 50)",
-         "Generated-input search over the same type table and configurations as C07 with hash widths b in {1,2,3,5,7,8,9,12,16,31,32,33,63,64}: every inserted key must be found by contains and Index, len/hash_bits checked, contains_unaligned where admissible; non-members from a structurally disjoint family are probed (2*10^4 to 2*10^5 per filter) and the positive count must lie within N 2^-b +- (7 sigma + 4). Exploration level; the rate check decides 'grossly wrong vs plausible'.",
+         "Generated-input search over the same type table and configurations as C07 with hash widths b in {1,2,3,5,7,8,9,12,16,31,32,33,63,64}: every inserted key must be found by contains and Index, len/hash_bits checked, contains_unaligned where admissible, including the peeling-regimes segment of C07; non-members from a structurally disjoint family are probed (2*10^4 to 2*10^5 per filter) and the positive count must lie within N 2^-b +- (7 sigma + 4). Exploration level; the rate check decides 'grossly wrong vs plausible'.",
          "The rate is a statistical statement: the tolerance keeps the per-run false-alarm probability negligible while a rate off by a factor 2 for b<=12 is far outside."),
  "C09": ("round-trip and lookup property testing of rear-coded lists against the Vec<String> they were built from",
-         "Generated-input search over block sizes, prefix-family string lists over six alphabets (multi-byte UTF-8, lengths around 127..130, thorough: suffixes >= 16512 bytes), sorted/reversed/duplicated/unsorted order, push or extend; len, get, get_in_place, iter/lend/into_lender, iter_from/lend_from/into_iter_from at every start with exact hints, index_of/contains for present, absent, prefix, extension and in-between probes. Exploration level.",
+         "Generated-input search over block sizes, prefix-family string lists over six alphabets (multi-byte UTF-8 with characters sharing 1, 2 or 3 bytes, lengths around 127..130; enumerated rear lengths in the 3-, 4- and (thorough) 5-byte variable-byte regimes, up to 270 MB strings), sorted/reversed/duplicated/unsorted order, push or extend; len, get, get_in_place, iter/lend/into_lender, iter_from/lend_from/into_iter_from at every start with exact hints, index_of/contains for present, absent, prefix, extension and in-between probes. Exploration level.",
          "Trusts the Vec<String> oracle; strings never contain NUL (documented precondition)."),
  "C10": ("differential property testing of bulk operations against element-wise loops, with a completely enumerated sub-domain for copy",
-         "Generated-input search over six word types: copy vs element loop (plus the complete enumeration of u8/u16, all widths, 24-element vectors, every (from,to,len)), apply_in_place with a recording closure on fresh and spare-word vectors, reset variants, BitVec fill/flip/reset/count and parallel and atomic twins, try_chunks_mut views (read and write), get_unaligned vs get. Exploration level with one exhaustively enumerated finite sub-domain.",
+         "Generated-input search over six word types: copy vs element loop (plus the complete enumeration of u8/u16, all widths, 24-element vectors, every (from,to,len)), apply_in_place with a recording closure on fresh and spare-word vectors, reset variants, BitVec fill/flip/reset/count and parallel and atomic twins, try_chunks_mut views (read and write), get_unaligned vs get, the blanket impls for Vec<W>/Box<[W]>, the parallel variants on 12.8-64 Mbit vectors in rayon pools of 1/2/3/default threads and all-ones vectors of 2^33..2^34+2^32 bits. Exploration level with one exhaustively enumerated finite sub-domain.",
          "Width 0 is excluded for apply_in_place (defined through set(), undefined at width 0) and try_chunks_mut at width 0 is an open known finding."),
  "C11": ("generated-input search over sizes with mem_size as the observation: built structures plus a formula sweep through the public ShardEdge API at every n below 300000",
          "Rank9/RankSmall/Select9 overheads, Elias-Fano bits per element over (n,u) classes, exact word counts of plain vectors, built functions and filters on the 20-row type table, and num_vertices x num_shards of all six logics for every n < 300000 (thorough 2000000) and log-uniform n up to 10^12 at both extreme admissible maximum shards, all against the documented bounds with an additive slack of a few words/three segments per shard. Exploration level (the per-n sweep is complete below its limit).",
          "Bounds are read as 'documented fraction + additive constant'; MWHC logics are held to their own documented 1.23*1.01 n."),
  "C12": ("op-sequence fuzzing of an explicit menu of safe methods with whole-domain arguments; oracle = process outcome under instrumented builds (std ub_checks; AddressSanitizer in the thorough tier)",
-         "Generated op sequences over BitVec/AtomicBitVec, BitFieldVec, every rank/select stack, Elias-Fano, rear-coded lists, functions/filters over 0, 1 and more keys queried with never-inserted keys, SliceSeq, Modulo2System::check; arguments len, len+-1, 2^32, 2^63, usize::MAX, random. A worker death (ub_checks abort, ASan report, signal) is the violation; answers and unwinding panics are accepted. Exploration level.",
+         "Generated op sequences over BitVec/AtomicBitVec, BitFieldVec, every rank/select stack, Elias-Fano, rear-coded lists, functions/filters over 0, 1 and more keys queried with never-inserted keys, SliceSeq, Modulo2Equation::add / Modulo2System on generated systems, rank/select on vectors above 2^32 bits; arguments len, len+-1, 2^32, 2^63, usize::MAX, random. A worker death (ub_checks abort, ASan report, signal) is the violation; answers and unwinding panics are accepted. Exploration level.",
          "Only the listed menu is covered; reads inside an allocation but outside the logical slice that do not go through get_unchecked are invisible to both instruments."),
  "C13": ("schedule enumeration: the harness serialises writer threads at the sched_point() hook and enumerates (stateless DFS) or samples the interleavings of their atomic operations; invariants over the final state and swap linearisability by brute force",
-         "For generated configurations (word type, width, 2-3 writers, 1-2 writes each to distinct indices around a word boundary, initial contents, orderings; bit-vector set/swap programs; concurrent Elias-Fano builder partitions) all interleavings are executed when the tree is small, otherwise thousands of random schedules; after join every element must hold its writer's value or its initial value, swap results must be explained by a sequential order, the concurrent builder must equal the sequential one byte for byte. Exploration of schedules; exhaustive per small configuration.",
+         "For generated configurations (word type, width, 2-3 writers, 1-2 writes each to distinct indices around a word boundary, initial contents, orderings; bit-vector set/swap programs; concurrent Elias-Fano builder partitions) all interleavings are executed when the tree is small, otherwise thousands of random schedules; long histories (24-64 attacker writes, each read back) under starvation schedules; after join every element must hold its writer's value or its initial value, swap results must be explained by a sequential order, the concurrent builder must equal the sequential one byte for byte. Exploration of schedules; exhaustive per small configuration.",
          "Granularity = hooked atomic operations, sequentially consistent; weaker hardware orderings are out of reach. Real-thread stress is auxiliary."),
  "C14": ("metamorphic/differential property testing over dirty storage: reads must agree with a clean twin, writes are checked against a bit-exact backend snapshot",
-         "Generated vectors placed by from_raw_parts over storage whose bits beyond len*width (last word and 0-3 extra words) are garbage; all read operations compared with the logical contents; after every mutator the whole backend must equal model bits inside the logical region and the original garbage outside. Exploration level.",
+         "Generated vectors placed by from_raw_parts over storage whose bits beyond len*width (last word and 0-3 extra words) are garbage; all read operations compared with the logical contents; after every mutator the whole backend must equal model bits inside the logical region and the original garbage outside; parallel bulk operations on 12.8-64 Mbit dirty backends with up to 400001 spare words in rayon pools of 1/2/3/default threads; push/pop/resize over dirty Vec backends. Exploration level.",
          "Trusts the bit-exact model of the backend layout (little-endian fields packed from bit 0)."),
  "C15": ("round-trip property testing through every loading path with a shared generic observation function",
-         "Generated instances of ~60 serialisable types are serialised (serialize and serialize_with_schema must write the same bytes) and loaded back by deserialize_full, deserialize_eps, mmap, load_mem, load_mmap and load_full; the same observation function (hundreds of queries incl. out-of-range ones) runs on the original and on each loaded value and the answer vectors must be identical. Exploration level.",
+         "Generated instances of ~60 serialisable types (functions and filters up to 600 keys and, enumerated, 100001..799999 keys: sharded instances) are serialised (serialize and serialize_with_schema must write the same bytes) and loaded back by deserialize_full, deserialize_eps, mmap, load_mem, load_mmap and load_full; the same observation function (hundreds of queries incl. out-of-range ones) runs on the original and on each loaded value and the answer vectors must be identical. Exploration level.",
          "SelectSmall/SelectZeroSmall do not implement Select/SelectZero for their zero-copy forms (a compile-time limitation, see DESIGN.md): their select queries are compared on the full-copy paths only."),
  "C16": ("validity-predicate property testing of the public ShardEdge API over generated (n, eps, max shard, signature) tuples",
-         "For the six logics: n from boundary classes up to 10^12, four eps values, three admissible maximum shards and 64 signatures with extreme words; vertices distinct, in range, inside the shard slice, equal to the local edge plus shard base, sort keys in range, shard == high bits, determinism across calls, Copy and epsilon-serde. Exploration level.",
-         "Capacity assertions beyond the documented ranges are discarded (counted)."),
+         "For the six logics: n from boundary classes up to 10^12, eight eps values (down to 10^-9), key counts at the 2^32-vertex capacity, three admissible maximum shards, 64 signatures with extreme words and up to 16 change-point signatures (boundaries of the fixed-point inversion found by bisection on edge()); vertices distinct, in range, inside the shard slice, equal to the local edge plus shard base, sort keys in range, shard == high bits, determinism across calls, Copy and epsilon-serde. Exploration level.",
+         "Capacity assertions are accepted only when c * max_shard * 1.03 >= 2^32 (c = 1.105, MWHC 1.23) or beyond the documented ranges (counted)."),
  "C17": ("fault enumeration: harness-owned rewindable lenders with fault plans, enumerated completely for small key sets, plus generated duplicate plans",
-         "All (stream, pass, item) and rewind fault positions for 6 builder types x 8 small sizes, with and without a duplicate that forces three retry passes, plus random faults/duplicates up to 3000 keys and duplicates in 10^5-key sets; a reached fault must come back as the returned error, duplicates with check_dups must give an error within the attempt bound, anything else must be Ok and verify; Ok with a wrong pair is always a violation.",
-         "Faults are injected at the lender interface (RewindableIoLender), not inside the signature store's file I/O."),
+         "All (stream, pass, item) and rewind fault positions for 6 builder types x 8 small sizes, with and without a duplicate that forces three retry passes, plus random faults/duplicates up to 3000 keys and duplicates in 10^5-key sets, the crate's own line lenders over a Read+Seek source failing at an exact byte offset with one of seven io::ErrorKinds or at the k-th seek, and gzip/zstd key streams that end early; a reached fault must come back as the returned error, duplicates with check_dups must give an error within the attempt bound, anything else must be Ok and verify; Ok with a wrong pair is always a violation.",
+         "Faults are injected at the lender interface (RewindableIoLender) and under the crate's lenders (Read+Seek), not inside the signature store's file I/O. Deadlocks are violations (state criterion)."),
  "C18": ("multiset-equality property testing of the signature store against a hash multiset, online and offline",
-         "Generated multisets (skewed high bits, duplicates) x (bucket bits, max shard bits, shard bits) x two signature and four value types x online/offline; number of shards, shard_sizes, home shard of every pair and multiset equality for two borrowed iterations and the consuming one. Exploration level.",
-         "Offline stores are limited to 2^5 buckets per case."),
+         "Generated multisets (skewed high bits, duplicates) x (bucket bits, max shard bits, shard bits) x two signature and four value types x online/offline; number of shards, shard_sizes, home shard of every pair and multiset equality for two borrowed iterations and the consuming one; enumerated stores with single buckets of 2^15..2^18 pairs and one bucket file above 2 GiB. Exploration level.",
+         "Offline stores are limited to 2^4 buckets per case; the 2 GiB case needs about 2.2 GB of temporary disk and 3 GB of memory."),
  "C19": ("differential property testing of both GF(2) solvers against an independent dense Gauss-Jordan oracle, with an exhaustively enumerated small sub-domain",
-         "Generated systems over five word types in seven shapes (planted, contradictory, repeated, rank-deficient, 3-uniform, fuse-like, arbitrary) plus all 41371 systems with 3 variables, <=4 equations and 1-bit constants; Ok iff solvable, solutions verified by the harness' evaluator and by check(). Exploration level with one exhaustive sub-domain.",
-         "Trusts the harness' Gauss-Jordan oracle."),
+         "Generated systems over five word types in seven shapes (planted, contradictory, repeated, rank-deficient, 3-uniform, fuse-like, arbitrary) plus all 41371 systems with 3 variables, <=4 equations and 1-bit constants, enumerated systems with rows of 255..131072 variables and with 65537..68536 equations (variables of weight ~2^16); Ok iff solvable, solutions verified by the harness' evaluator and by check(). Exploration level with one exhaustive sub-domain.",
+         "Trusts the harness' Gauss-Jordan oracle; the many-equation systems are solvable or contradictory by construction and run through the lazy solver only (the plain elimination is quadratic)."),
  "C20": ("history-based property testing of rewindable lenders: generated inputs and Next/Rewind histories against the harness' own line splitter",
-         "Ten lender kinds (plain/zstd/gzip line lenders over cursors and files, small-buffer readers, FromIntoIterator) with optional take(m), inputs with CR/LF/CRLF corner cases and lines longer than the reader's buffer, histories with up to 7 rewinds; every item of every pass compared. Exploration level. One open known finding (Take) is excluded by construction and re-checked on every run.",
+         "Ten lender kinds (plain/zstd/gzip line lenders over cursors and files, small-buffer readers, FromIntoIterator) with optional take(m), inputs with CR/LF/CRLF corner cases, a leading BOM or '#', lines longer than the reader's buffer, zstd sources of 1-3 concatenated frames and gzip sources of 1-3 members, histories with up to 7 rewinds; every item of every pass compared. Exploration level. One open known finding (Take) is excluded by construction and re-checked on every run.",
          "Compression in the harness uses the zstd/flate2 crates the library itself depends on."),
 })
 
